@@ -770,7 +770,7 @@ def settings_oracle(case_text, real_lines):
 
 @_robust(2)
 def conc_oracle(case_text, real_lines):
-    """tags: dangling (C04/C08), read_atomic (C05), quiescent_exact (C07), stuck (C15), restart_conc (C02), crash_conc (C03), nofail"""
+    """tags: dangling (C04/C08), read_atomic (C05), quiescent_exact (C07), stuck (C15), restart_conc (C02), crash_conc (C03), put_visible (C05), nofail"""
     fails = []
     calls = {}                     # tid -> list of call token lists
     for l in case_text.splitlines():
@@ -865,6 +865,40 @@ def conc_oracle(case_text, real_lines):
             ran_cleanup = any(c[0] == "delorphans" for cs in calls.values() for c in cs)
             if (last[5] - sabotaged) != (ref - sabotaged) and not (had_orphans and not ran_cleanup) and not had_orphans:
                 fails.append(("quiescent_exact", f"at quiescence cas/ holds {sorted(last[5])}, referenced {sorted(ref)}"))
+    # C05: a put that has returned is seen from then on: at every later instant at which the index is
+    # visible, the key holds the put's value or the value of a write that is not ordered before the put
+    # (a write of the same key by a call that had not returned when the put was taken)
+    def written(c):
+        if c[0] == "put":
+            cont = parse_chunks(c[2] if len(c) > 2 else "")
+            return (HASH(cont), len(cont))
+        return None
+    for (tid, ci), res in results.items():
+        c = calls.get(tid, [None] * (ci + 1))[ci] if ci < len(calls.get(tid, [])) else None
+        if not c or c[0] != "put" or res != "ok":
+            continue
+        eA, sA = ended.get((tid, ci)), started.get((tid, ci))
+        if eA is None or sA is None:
+            continue
+        k = c[1]
+        allowed = {written(c)}
+        for t2, cs in calls.items():
+            for c2i, c2 in enumerate(cs):
+                if (t2, c2i) == (tid, ci):
+                    continue
+                e2 = ended.get((t2, c2i))
+                if e2 is not None and e2 < sA:
+                    continue                     # returned before the put was taken: ordered before it
+                if c2[0] == "put" and c2[1] == k:
+                    allowed.add(written(c2))
+                elif c2[0] == "remove" and c2[1] == k:
+                    allowed.add(None)
+                elif c2[0] == "remove_range":
+                    allowed.add(None)
+        for (i, tid2, frm, to, idx, cas) in steps:
+            if i is not None and i > eA and idx is not None and idx.get(k) not in allowed:
+                fails.append(("put_visible", f"t{tid} `{' '.join(c)}` returned ok at step {eA}, but after step {i} key {k} holds {idx.get(k)}: neither the put's value nor that of a write not ordered before it {sorted(map(str, allowed))}"))
+                break
     # C05: reads
     def value_sets(k, s0, s1):
         vals = set()
